@@ -1253,14 +1253,24 @@ class Walker:
             out.append((s, v))
         return out
 
-    def _comp(self, n, st, kind):
+    def _comp(self, n, st, kind, first=None):
         # comprehension: evaluated in a copy of the environment; single state only
+        if first is None:
+            # the outermost iterable is evaluated once, before the comprehension starts: code that forks there (a looked-through helper
+            # with a loop or several returns) forks the whole comprehension
+            r0 = [x for x in self.ev(n.generators[0].iter, st) if x[0].exit is None]
+            if len(r0) != 1:
+                out = []
+                for s_i, dom_i in r0:
+                    out.extend(self._comp(n, s_i, kind, first=(dom_i,)))
+                return out
+            return self._comp(n, r0[0][0], kind, first=(r0[0][1],))
         saved = dict(st.env)
         gens = []
         loops_before = st.loops
         cur = st
-        for g in n.generators:
-            r = self.ev(g.iter, cur)
+        for gi, g in enumerate(n.generators):
+            r = [(cur, first[0])] if gi == 0 else self.ev(g.iter, cur)
             if len(r) != 1:
                 raise AnalysisError(f"forking comprehension domain at {st.frame.func.where(n)}")
             cur, dom = r[0]
@@ -1275,6 +1285,8 @@ class Walker:
                     raise AnalysisError(f"forking comprehension condition at {st.frame.func.where(n)}")
                 cur, cv = rc[0]
                 conds.append(cv)
+                # the element (and the inner generators) run only where the filter holds: a per-iteration fact, tagged with the loop
+                cur.conds.append(Cond(cv, True, c, cur.frame.func, cur.loops))
             gens.append(("gen", lid, dom, tuple(conds)))
         # the element expression runs once per iteration: what it writes (through calls) is unknown at the start of the generic one
         body = [ast.Expr(n.key), ast.Expr(n.value)] if isinstance(n, ast.DictComp) else [ast.Expr(n.elt)]
@@ -1541,6 +1553,23 @@ class Walker:
     def call_func(self, f: FuncInfo, recv, args, kwargs, st: State, node, name="", force=False):
         if st.exit is not None:
             return [(st, ("unk", "raised"))]
+        if any(a[0] == "star" for a in args):
+            # f(*xs): a literal sequence is spread; a trailing *xs of anything else fills the remaining parameters that have no
+            # default, position by position (xs[0], xs[1], ...) - for inlined and for opaque callees alike
+            spread = []
+            for a in args:
+                if a[0] == "star" and a[1][0] in ("tup", "lst"):
+                    spread.extend(a[1][1])
+                else:
+                    spread.append(a)
+            args = spread
+            stars = [a for a in args if a[0] == "star"]
+            pn = [x.arg for x in f.node.args.posonlyargs + f.node.args.args]
+            if f.cls is not None and f.kind in ("method", "classmethod") and pn:
+                pn = pn[1:]
+            if len(stars) == 1 and args[-1] is stars[0] and not f.node.args.vararg:
+                need = [p_ for p_ in pn[len(args) - 1:] if p_ not in kwargs and f.defaults.get(p_) is None]
+                args = args[:-1] + [("sub", stars[0][1], C(i), self.epoch(st, stars[0][1])) for i in range(len(need))]
         K = None
         if f.cls is not None:
             if recv is not None and recv[0] == "cls":
